@@ -138,6 +138,20 @@ func (e *EndpointElement) endpoint(a *sysl.Application) *sysl.Endpoint {
 	panic(fmt.Sprintf("endpoint %#v not found in app %#v", e.endpointName, e.appName))
 }
 
+// target looks up the application and endpoint the element refers to. A call statement may name an
+// application or endpoint that the module does not define; that is reported as an error.
+func (e *EndpointElement) target(m *sysl.Module) (*sysl.Application, *sysl.Endpoint, error) {
+	app, ok := m.Apps[e.appName]
+	if !ok {
+		return nil, nil, fmt.Errorf("app %#v not found", e.appName)
+	}
+	ep, ok := app.Endpoints[e.endpointName]
+	if !ok {
+		return nil, nil, fmt.Errorf("endpoint %#v not found in app %#v", e.endpointName, e.appName)
+	}
+	return app, ep, nil
+}
+
 func (e *EndpointElement) label(
 	l EndpointLabeler,
 	m *sysl.Module,
@@ -352,8 +366,10 @@ func (v *SequenceDiagramVisitor) visitEndpointCollection(e *EndpointCollectionEl
 func (v *SequenceDiagramVisitor) visitEndpoint(e *EndpointElement) error {
 	sender := e.sender(v)
 	agent := e.agent(v)
-	app := e.application(v.m)
-	endpoint := e.endpoint(app)
+	app, endpoint, err := e.target(v.m)
+	if err != nil {
+		return err
+	}
 
 	appPatterns := syslutil.MakeStrSetFromAttr("patterns", app.Attrs)
 	endPointPatterns := syslutil.MakeStrSetFromAttr("patterns", endpoint.Attrs)
